@@ -78,3 +78,59 @@ def branch_truth(ev):
 
 def where(body, b):
     return '%s:%d' % (body.file, body.block_line(b))
+
+
+PURE_GETTERS = [
+    # &self accessors whose result depends only on the receiver's current value (trait contract of Message::length;
+    # Vec::len / slice::len): two calls on the same unmodified receiver denote the same value
+    'model::data::Message::length', 'std::vec::Vec::<T, A>::len', 'core::slice::<impl [T]>::len',
+    'std::slice::<impl [T]>::len',
+]
+
+
+def fold(e):
+    """constant-fold a symbolic expression (checked ops, casts of constants)"""
+    e = strip(e)
+    if e[0] == 'bin':
+        a, b = fold(e[2]), fold(e[3])
+        if a[0] == 'const' and b[0] == 'const' and a[1] is not None and b[1] is not None:
+            op = e[1].replace('WithOverflow', '').replace('Unchecked', '')
+            x, y = a[1], b[1]
+            try:
+                v = {'Add': x + y, 'Sub': x - y, 'Mul': x * y, 'BitAnd': x & y, 'BitOr': x | y, 'BitXor': x ^ y,
+                     'Shl': x << y if 0 <= y < 128 else None, 'Shr': x >> y if 0 <= y < 128 else None,
+                     'Eq': int(x == y), 'Ne': int(x != y), 'Lt': int(x < y), 'Le': int(x <= y),
+                     'Gt': int(x > y), 'Ge': int(x >= y)}.get(op)
+            except Exception:
+                v = None
+            if v is not None:
+                return ('const', v, str(v))
+        return ('bin', e[1], a, b)
+    if e[0] == 'cast':
+        a = fold(e[1])
+        if a[0] == 'const' and a[1] is not None:
+            m = re.match(r'^[ui](8|16|32|64|128|size)$', e[2])
+            if m:
+                bits = 64 if m.group(1) == 'size' else int(m.group(1))
+                v = a[1] & ((1 << bits) - 1)
+                if e[2].startswith('i') and v >= (1 << (bits - 1)):
+                    v -= (1 << bits)
+                return ('const', v, str(v))
+        return ('cast', a, e[2])
+    if e[0] == 'un':
+        a = fold(e[1])
+        return ('un', e[1], a)
+    return e
+
+
+def same_pure(a, b):
+    """same_value extended with pure getters: f(x) == f(x) for f in PURE_GETTERS"""
+    a = unwrap_cast(a)
+    b = unwrap_cast(b)
+    if a[0] == 'call' and b[0] == 'call' and a[1] == b[1] and a[1] in PURE_GETTERS:
+        return len(a[3]) == len(b[3]) and all(same_pure(x, y) for x, y in zip(a[3], b[3]))
+    if a[0] == b[0] == 'bin':
+        return a[1] == b[1] and same_pure(a[2], b[2]) and same_pure(a[3], b[3])
+    if a[0] == b[0] == 'refl':
+        return a[1] == b[1]
+    return same_value(a, b)
